@@ -28,9 +28,13 @@ var (
 	ifaceAddrs = []ethcmn.Address{addrA, addrB, addrC}
 	addrNames  = []string{"A", "B", "C"}
 
-	slot0      = ethcmn.HexToHash("0x00")
-	slot1      = ethcmn.HexToHash("0x01")
+	// storage keys of the interface level ("slot0", "slot1"). Not the zero hash: go-ethereum's ForEachStorage
+	// reports keys whose preimage it cannot resolve as the zero hash.
+	slot0      = ethcmn.HexToHash("0x01")
+	slot1      = ethcmn.HexToHash("0x02")
 	ifaceSlots = []ethcmn.Hash{slot0, slot1}
+	// storage keys observed at the program level (the snippets use key 0; the pre-deployed callees too)
+	progSlots = []ethcmn.Hash{ethcmn.HexToHash("0x00"), ethcmn.HexToHash("0x01")}
 
 	// codes[0] is "no code"
 	ifaceCodes = [][]byte{nil, {0x00}, {0x60, 0x00, 0x00}}
@@ -572,13 +576,13 @@ func b2b(b bool) byte {
 
 // observe serialises the observation of one back-end (adapterSide selects which) into buf.
 func (x *ifaceRun) observe(adapterSide bool, buf []byte) []byte {
-	var db ethvm.StateDB
-	var logs []*ethtypes.Log
 	if adapterSide {
-		db, logs = x.a.sdb, x.a.txLogs()
-	} else {
-		db, logs = x.r.sdb, x.r.txLogs()
+		return observeDB(x.a.sdb, x.a.txLogs(), true, &x.committed, buf)
 	}
+	return observeDB(x.r.sdb, x.r.txLogs(), false, &x.committed, buf)
+}
+
+func observeDB(db ethvm.StateDB, logs []*ethtypes.Log, adapterSide bool, committed *[3][2]bool, buf []byte) []byte {
 	var u8 [8]byte
 	for ai, a := range ifaceAddrs {
 		buf = append(buf, b2b(db.Exist(a)), b2b(db.Empty(a)), b2b(db.HasSuicided(a)), b2b(db.AddressInAccessList(a)))
@@ -619,7 +623,7 @@ func (x *ifaceRun) observe(adapterSide bool, buf []byte) []byte {
 		} else {
 			db.ForEachStorage(a, func(k, v ethcmn.Hash) bool {
 				for si, s := range ifaceSlots {
-					if k == s && x.committed[ai][si] {
+					if k == s && committed[ai][si] {
 						seen[si], has[si] = v, true
 					}
 				}
